@@ -61,6 +61,7 @@ impl SimChain {
             builder.shared.clone(),
             preload_unverified_rx.clone(),
             unverified_block_tx,
+            Arc::clone(&is_pending_verify),
             preload_stop_rx,
         );
         let (process_block_tx, process_block_rx) = channel::bounded(24);
